@@ -76,13 +76,13 @@ def one_run(case):
             if p.poll() is None:
                 t_sig = time.time()
                 p.send_signal(signal.SIGINT)
-        rc = p.wait(timeout=30)
+        rc = p.wait(timeout=90)
         if t_sig is not None:
             latency = time.time() - t_sig
     except subprocess.TimeoutExpired:
         p.kill()
         rc = 124
-        latency = 30.0
+        latency = 90.0
     left = sorted(os.listdir(tmp))
     return dict(left=len(left), latency=latency, rc=rc, saw_file=saw, signalled=t_sig is not None,
                 wall=round(time.time() - t0, 3))
@@ -138,7 +138,7 @@ def run(ctx):
         out = []
         for j in range(k):
             p = os.path.join(d, "cycle%d.log" % j)
-            text_log(p, 40, 1000 * j)
+            text_log(p, 12, 1000 * j)
             out.append(p)
         return out
 
@@ -211,7 +211,7 @@ def run(ctx):
         desc = dict(kind=k, files=[os.path.basename(f) for f in c["files"]], env=c.get("env", {}),
                     sigint_after_file=c.get("sigint_after_file"), cpu=c.get("cpu"), result=r)
         if r["rc"] == 124:
-            ctx.failure(desc, "process ends", "hang (killed after 30 s)")
+            ctx.failure(desc, "process ends", "hang (killed after 90 s)")
             continue
         if r["left"] != 0:
             h["leaks"] += 1
@@ -223,7 +223,8 @@ def run(ctx):
             h["slow"] += 1
             cls = []
             if k in ("blocked", "in_create_window", "in_register_window", "early"):
-                # every live source was inside an injected delay (silent) for that long
+                # injected worker delays: the coordinator spends its time blocked in select (holding the
+                # read lock) and the handler must win the write lock in the short gaps in between
                 cls = ["sigint_while_coordinator_blocked_on_silent_workers"]
             ctx.failure(desc, "exit within %.1fs of SIGINT" % BOUND, "%.2fs" % r["latency"], cls)
 
